@@ -153,6 +153,8 @@ class Evaluator:
         self.inlined: List[str] = []
         self.unknown_calls: Dict[str, int] = {}
         self.extern = extern or {}
+        self.effect_calls: set = set()   # short names of calls recorded as effects (effects mode)
+        self.effects_mode = False
 
     # ------------------------------------------------------------------ API
     def function_paths(self, f: FuncInfo, args: Optional[Dict[str, object]] = None, selfv=None, depth: int = 0):
@@ -173,6 +175,75 @@ class Evaluator:
         for (conds, env2, ret) in self.exec_block(f.node.body, [(frozenset(), env, None)], ctx):
             outs.append((conds, ret if ret is not None else NONE))
         return outs
+
+    def effect_paths(self, f: FuncInfo, effect_calls, selfcls=None, args=None):
+        """Paths of a state-changing function: [(conds, env, ret)], env['$fx'] = tuple of effects in order.
+        Effects: ('call', name, receiver term, {param/pos: term}) for calls in `effect_calls` made at statement
+        level, and ('store', target term, op, value) for stores into attributes / subscripts."""
+        self.effect_calls = set(effect_calls)
+        self.effects_mode = True
+        env: Dict[str, object] = {"$fx": ()}
+        for p in f.params + f.kwonly:
+            if p == "self" and f.is_method:
+                env[p] = sym("self")
+            elif args and p in args:
+                env[p] = args[p]
+            else:
+                env[p] = sym(p)
+        ctx = Ctx(f, 0, selfcls or f.cls)
+        try:
+            return self.exec_block(f.node.body, [(frozenset(), env, None)], ctx)
+        finally:
+            self.effects_mode = False
+
+    def _fx(self, env, eff):
+        env["$fx"] = env.get("$fx", ()) + (eff,)
+
+    def _effect_call(self, call: ast.Call, env, ctx):
+        """If `call` is an effect call return (conds, effect, value-atom) alternatives else None."""
+        if not self.effects_mode or ctx.depth != 0:
+            return None
+        nm = _callname(call)
+        short = nm.split(".")[-1]
+        if short not in self.effect_calls:
+            return None
+        recv = ("none",)
+        if isinstance(call.func, ast.Attribute):
+            ra = self.ev(call.func.value, env, ctx)
+            if len(ra) != 1 or ra[0][0]:
+                raise Unreadable("piecewise effect receiver")
+            recv = as_term(ra[0][1])
+        alts = [(frozenset(), {})]
+        for i, a in enumerate(call.args):
+            nxt = []
+            for c, d in alts:
+                for c2, v in self.ev(a, env, ctx):
+                    dd = dict(d)
+                    dd[i] = v
+                    nxt.append((c | c2, dd))
+            alts = nxt
+        for k in call.keywords:
+            nxt = []
+            for c, d in alts:
+                for c2, v in self.ev(k.value, env, ctx):
+                    dd = dict(d)
+                    dd[k.arg] = v
+                    nxt.append((c | c2, dd))
+            alts = nxt
+        n = len(env.get("$fx", ()))
+        # bind positional arguments to parameter names when the callee is a method of the analysed class
+        pnames = None
+        if recv == ("sym", "self") and (ctx.selfcls or ctx.f.cls) is not None:
+            cal = self.model.find_method(ctx.selfcls or ctx.f.cls, short)
+            if cal is not None:
+                pnames = cal.params[1:]
+        out = []
+        for c, d in alts:
+            if pnames is not None:
+                d = {(pnames[k] if isinstance(k, int) and k < len(pnames) else k): v for k, v in d.items()}
+            out.append((c, ("call", short, recv, tuple(sorted(((str(k), as_term(v)) for k, v in d.items()), key=repr))),
+                        Rat.atom(("ret", short, n))))
+        return out
 
     def _default(self, f: FuncInfo, p: str):
         try:
@@ -204,6 +275,14 @@ class Evaluator:
                 return [(conds, env, None)]
             # side-effect-free expression statements (calls to require are handled)
             if isinstance(st.value, ast.Call):
+                ec = self._effect_call(st.value, env, ctx)
+                if ec is not None:
+                    out = []
+                    for c2, eff, val in ec:
+                        e2 = dict(env)
+                        self._fx(e2, eff)
+                        out.append((conds | c2, e2, None))
+                    return out
                 nm = _callname(st.value)
                 if nm == "require":
                     out = []
@@ -215,6 +294,14 @@ class Evaluator:
                     return out
                 if nm in ("print", "logging.warning", "logging.info", "self.logger.info"):
                     return [(conds, env, None)]
+                if self.effects_mode and ctx.depth == 0:
+                    # other statement-level call: evaluate (pure helpers are inlined), record as an effect
+                    out = []
+                    for c2, v in self.ev(st.value, env, ctx):
+                        e2 = dict(env)
+                        self._fx(e2, ("expr", as_term(v)))
+                        out.append((conds | c2, e2, None))
+                    return out
             raise Unreadable(f"expression statement {ast.unparse(st)[:60]} in {ctx.f.qualname}")
         if isinstance(st, (ast.Assign, ast.AnnAssign)):
             if isinstance(st, ast.AnnAssign):
@@ -224,21 +311,37 @@ class Evaluator:
             else:
                 targets = st.targets
             out = []
+            if isinstance(st.value, ast.Call):
+                ec = self._effect_call(st.value, env, ctx)
+                if ec is not None:
+                    for c2, eff, val in ec:
+                        e2 = dict(env)
+                        self._fx(e2, eff)
+                        for t in targets:
+                            self.bind(t, val, e2, ctx)
+                        out.append((conds | c2, e2, None))
+                    return out
             for c2, v in self.ev(st.value, env, ctx):
                 if _contradict(conds | c2):
                     continue
                 e2 = dict(env)
                 for t in targets:
-                    self.bind(t, v, e2, ctx)
+                    self.bind(t, v, e2, ctx, "set")
                 out.append((conds | c2, e2, None))
             return out
+        if isinstance(st, ast.Delete):
+            e2 = dict(env)
+            for t in st.targets:
+                if self.effects_mode and ctx.depth == 0:
+                    self._fx(e2, ("store", self._target_term(t, env, ctx), "del", None))
+            return [(conds, e2, None)]
         if isinstance(st, ast.AugAssign):
             fake = ast.BinOp(left=_load(st.target), op=st.op, right=st.value)
             ast.copy_location(fake, st)
             out = []
             for c2, v in self.ev(fake, env, ctx):
                 e2 = dict(env)
-                self.bind(st.target, v, e2, ctx)
+                self.bind(st.target, v, e2, ctx, "aug:" + type(st.op).__name__, st)
                 out.append((conds | c2, e2, None))
             return out
         if isinstance(st, ast.Return):
@@ -318,7 +421,7 @@ class Evaluator:
 
         def bindvars(t, idx=()):
             if isinstance(t, ast.Name):
-                lv_env[t.id] = Rat.atom(("loopvar", it_term, t.id if not idx else idx))
+                lv_env[t.id] = Rat.atom(("loopvar", it_term, idx))
                 names.append(t.id)
             elif isinstance(t, ast.Tuple):
                 for i, e in enumerate(t.elts):
@@ -329,44 +432,90 @@ class Evaluator:
         bindvars(st.target)
         if st.orelse:
             raise Unreadable("for-else")
-        accs: Dict[str, Rat] = {}
-        body = st.body
-        filt = None
+        body = list(st.body)
+        filt = frozenset()
+        # leading `if c: continue` filters
+        while body and isinstance(body[0], ast.If) and not body[0].orelse and len(body[0].body) == 1 \
+                and isinstance(body[0].body[0], ast.Continue):
+            fc = self.cond_alts(body[0].test, lv_env, ctx)
+            if len(fc) != 1 or fc[0][0]:
+                raise Unreadable("loop filter")
+            fl = [cc for truth, cc in fc[0][1] if not truth]
+            if len(fl) != 1:
+                raise Unreadable("loop filter (disjunctive)")
+            filt |= fl[0]
+            body = body[1:]
         if len(body) == 1 and isinstance(body[0], ast.If) and not body[0].orelse:
             fc = self.cond_alts(body[0].test, lv_env, ctx)
-            if len(fc) != 1 or fc[0][0] or len(fc[0][1]) != 2:
+            if len(fc) != 1 or fc[0][0]:
                 raise Unreadable("loop filter")
-            filt = [cc for truth, cc in fc[0][1] if truth][0]
+            tr = [cc for truth, cc in fc[0][1] if truth]
+            if len(tr) != 1:
+                raise Unreadable("loop filter (disjunctive)")
+            filt |= tr[0]
             body = body[0].body
         e2 = dict(env)
         for b in body:
-            if isinstance(b, ast.AugAssign) and isinstance(b.op, ast.Add) and isinstance(b.target, ast.Name):
+            if isinstance(b, ast.AugAssign) and isinstance(b.op, ast.Add) and isinstance(b.target, ast.Name) \
+                    and b.target.id in env and b.target.id not in names:
                 vs = self.ev(b.value, lv_env, ctx)
                 if len(vs) != 1 or vs[0][0] or not isinstance(vs[0][1], Rat):
                     raise Unreadable("conditional summand")
-                term = ("sum", it_term, vs[0][1]) if filt is None else ("sum", it_term, vs[0][1], frozenset(filt))
+                term = ("sum", it_term, vs[0][1]) if not filt else ("sum", it_term, vs[0][1], filt)
                 cur = e2.get(b.target.id)
                 if not isinstance(cur, Rat):
                     raise Unreadable("accumulator not initialised")
                 e2[b.target.id] = cur + Rat.atom(term)
+            elif isinstance(b, (ast.Assign, ast.AnnAssign)) and b.value is not None:
+                tg = b.targets[0] if isinstance(b, ast.Assign) else b.target
+                if not isinstance(tg, (ast.Name, ast.Tuple)):
+                    raise Unreadable("store inside accumulation loop")
+                vs = self.ev(b.value, lv_env, ctx)
+                if len(vs) != 1 or vs[0][0]:
+                    raise Unreadable("conditional loop local")
+                self.bind(tg, vs[0][1], lv_env, Ctx(ctx.f, ctx.depth + 100, ctx.selfcls))
+                for nn in ast.walk(tg):
+                    if isinstance(nn, ast.Name):
+                        names.append(nn.id)
             elif isinstance(b, ast.Expr) and isinstance(b.value, ast.Constant):
                 continue
             else:
                 raise Unreadable(f"loop body statement {ast.unparse(b)[:50]}")
         return [(conds, e2, None)]
 
-    def bind(self, t, v, env, ctx):
+    def _target_term(self, t, env, ctx):
+        if isinstance(t, ast.Attribute):
+            ba = self.ev(t.value, env, ctx)
+            if len(ba) != 1 or ba[0][0]:
+                raise Unreadable("piecewise store target")
+            return ("attr", as_term(ba[0][1]), t.attr)
+        if isinstance(t, ast.Subscript):
+            ba = self.ev(t.value, env, ctx)
+            ia = self.ev(t.slice, env, ctx)
+            if len(ba) != 1 or ba[0][0] or len(ia) != 1 or ia[0][0]:
+                raise Unreadable("piecewise store target")
+            return ("idx", as_term(ba[0][1]), as_term(ia[0][1]))
+        raise Unreadable("store target")
+
+    def bind(self, t, v, env, ctx, how="set", stmt=None):
         if isinstance(t, ast.Name):
             env[t.id] = v
         elif isinstance(t, (ast.Tuple, ast.List)):
             if isinstance(v, Tup) and len(v.items) == len(t.elts):
                 for e, x in zip(t.elts, v.items):
-                    self.bind(e, x, env, ctx)
+                    self.bind(e, x, env, ctx, how)
             else:
                 term = as_term(v)
                 for i, e in enumerate(t.elts):
-                    self.bind(e, Rat.atom(("item", term, i)), env, ctx)
+                    self.bind(e, Rat.atom(("item", term, i)), env, ctx, how)
         elif isinstance(t, (ast.Attribute, ast.Subscript)):
+            if self.effects_mode and ctx.depth == 0:
+                delta = None
+                if stmt is not None and isinstance(stmt, ast.AugAssign):
+                    da = self.ev(stmt.value, env, ctx)
+                    if len(da) == 1 and not da[0][0]:
+                        delta = da[0][1]
+                self._fx(env, ("store", self._target_term(t, env, ctx), how, v if delta is None else delta))
             # store into an object: remember by source text (used for simple local state like `result.x = ...`)
             env["@" + ast.unparse(t)] = v
         else:
@@ -568,6 +717,24 @@ class Evaluator:
         if isinstance(node, (ast.ListComp, ast.GeneratorExp)):
             return [(frozenset(), self.comp(node, env, ctx))]
         if isinstance(node, ast.Lambda):
+            # canonical in the parameter names: parameters become positional placeholders
+            try:
+                e2 = dict(env)
+                names = [a.arg for a in node.args.args]
+                for i, nme in enumerate(names):
+                    e2[nme] = Rat.atom(("lamarg", i))
+                if isinstance(node.body, (ast.Compare, ast.BoolOp)) or (
+                        isinstance(node.body, ast.UnaryOp) and isinstance(node.body.op, ast.Not)):
+                    ca = self.cond_alts(node.body, e2, ctx)
+                    if len(ca) == 1 and not ca[0][0]:
+                        tr = [cc for truth, cc in ca[0][1] if truth]
+                        if len(tr) == 1:
+                            return [(frozenset(), Rat.atom(("lambda", len(names), ("conds", frozenset(tr[0])))))]
+                ba = self.ev(node.body, e2, ctx)
+                if len(ba) == 1 and not ba[0][0]:
+                    return [(frozenset(), Rat.atom(("lambda", len(names), as_term(ba[0][1]))))]
+            except Unreadable:
+                pass
             return [(frozenset(), Rat.atom(("lambda", ast.unparse(node.args), ast.unparse(node.body))))]
         if isinstance(node, ast.Dict):
             alts = [(frozenset(), {})]
@@ -616,7 +783,7 @@ class Evaluator:
 
         def bindvars(t, idx=()):
             if isinstance(t, ast.Name):
-                e2[t.id] = Rat.atom(("loopvar", it_term, t.id if not idx else idx))
+                e2[t.id] = Rat.atom(("loopvar", it_term, idx))
             elif isinstance(t, ast.Tuple):
                 for i, e in enumerate(t.elts):
                     bindvars(e, idx + (i,))
